@@ -133,7 +133,7 @@ func VP_C07_data_compressed_2() {
 		vp.Cover("skipped in the quick tier")
 		return
 	}
-	c07DataRoundTrip(2, c07Zstrip{}, newLRU(16), 1000, 2000, 2)
+	c07DataRoundTrip(2, c07Zstrip{}, newLRU(16), 1000, 2000, 1)
 	vp.Cover("two blocks + tail, compressor on")
 }
 
@@ -187,8 +187,11 @@ func c07Itoa(i int) string {
 
 // c07FragTable: n fragment blocks with arbitrary location/size/flag written by writeFragmentTable
 // at an arbitrary position read back through readFragmentTable.
-func c07FragTable(n int, comp Compressor) {
-	location := int64(vp.U32("location"))
+func c07FragTable(n int, comp Compressor, symbolicLocation bool) {
+	location := int64(5000)
+	if symbolicLocation {
+		location = int64(vp.U32("location"))
+	}
 	var blocks []fragmentBlock
 	for i := 0; i < n; i++ {
 		p := "f" + c07Itoa(i)
@@ -215,10 +218,10 @@ func c07FragTable(n int, comp Compressor) {
 	}
 }
 
-func VP_C07_data_fragment_table_0() { c07FragTable(0, nil); vp.Cover("no fragments") }
-func VP_C07_data_fragment_table_3() { c07FragTable(3, nil); vp.Cover("three fragments, stored") }
+func VP_C07_data_fragment_table_0() { c07FragTable(0, nil, true); vp.Cover("no fragments") }
+func VP_C07_data_fragment_table_3() { c07FragTable(3, nil, true); vp.Cover("three fragments, stored") }
 func VP_C07_data_fragment_table_3c() {
-	c07FragTable(3, c07Zstrip{})
+	c07FragTable(3, c07Zstrip{}, true)
 	vp.Cover("three fragments, compressor on")
 }
 func VP_C07_data_fragment_table_513() {
@@ -226,13 +229,16 @@ func VP_C07_data_fragment_table_513() {
 		vp.Cover("skipped in the quick tier")
 		return
 	}
-	c07FragTable(513, nil)
+	c07FragTable(513, nil, false)
 	vp.Cover("two metadata blocks of fragment entries")
 }
 
 // c07IDTable: n distinct ids written by writeIDTable at an arbitrary position, read by readUidsGids.
-func c07IDTable(n int, comp Compressor) {
-	location := int64(vp.U32("location"))
+func c07IDTable(n int, comp Compressor, symbolicLocation bool) {
+	location := int64(5000)
+	if symbolicLocation {
+		location = int64(vp.U32("location"))
+	}
 	idtable := map[uint32]uint16{}
 	for i := 0; i < n; i++ {
 		idtable[uint32(1000+7*i)] = uint16(i)
@@ -252,9 +258,9 @@ func c07IDTable(n int, comp Compressor) {
 	}
 }
 
-func VP_C07_data_id_table_2() { c07IDTable(2, nil); vp.Cover("two ids") }
+func VP_C07_data_id_table_2() { c07IDTable(2, nil, true); vp.Cover("two ids") }
 func VP_C07_data_id_table_5c() {
-	c07IDTable(5, c07Zstrip{})
+	c07IDTable(5, c07Zstrip{}, true)
 	vp.Cover("five ids, compressor on")
 }
 func VP_C07_data_id_table_2049() {
@@ -262,7 +268,7 @@ func VP_C07_data_id_table_2049() {
 		vp.Cover("skipped in the quick tier")
 		return
 	}
-	c07IDTable(2049, nil)
+	c07IDTable(2049, nil, false)
 	vp.Cover("two metadata blocks of ids")
 }
 
